@@ -814,6 +814,27 @@ func runJoinCase(t *rapid.T, spec joinSpec) {
 	e.check("first check")
 	ops["srcPut"] = srcPut
 	ops["srcDel"] = srcDel
+	// a source that is the twin of an existing one - same selector, labels, backends - under another
+	// namespace and/or name (a headless service next to its ClusterIP twin, the same chart installed
+	// in two namespaces): each selects in its own namespace
+	ops["srcTwin"] = func(t *rapid.T) {
+		if len(e.srcState) == 0 || spec.srcKind == "replicationcontroller" {
+			t.Skip("no source to copy")
+		}
+		w := e.srcState[rapid.SampledFrom(sortedWorkloadKeys(e.srcState)).Draw(t, "twinOf")]
+		w.NS = rapid.SampledFrom([]string{"a", "b"}).Draw(t, "twinNS")
+		w.Name = rapid.SampledFrom([]string{"s1", "s2", "s3"}).Draw(t, "twinName")
+		k := w.NS + "/" + w.Name
+		before := e.expected()
+		e.srcState[k] = w
+		after := e.expected()
+		e.src.putObj(workloadObject(spec.srcKind, w))
+		srcHistory[k] = append(srcHistory[k], w)
+		e.h("source put %s (twin of another source)", w)
+		added, removed := diffStrings(before, after)
+		srcAdded = srcAdded || added > 0
+		srcRemoved = srcRemoved || removed > 0
+	}
 	ops["dstPut"] = dstPut
 	ops["dstPut2"] = dstPut
 	ops["dstDel"] = dstDel
